@@ -13,7 +13,7 @@ NS == <<"n1", "n2", "n3">>
 Trace == ndJsonDeserialize("trace.ndjson")
 VARIABLE l
 
-Rep(ok, e, law, cause) == ok \/ PrintT(<<"MISMATCH", l, e.ty, law, cause>>)
+Rep(ok, e, law, cause) == IF ok THEN TRUE ELSE PrintT(<<"MISMATCH", l, e.ty, law, cause>>)
 
 Check(e) ==
   LET ty == e.ty
@@ -22,12 +22,12 @@ Check(e) ==
       \* known finding ORMapValueDrop: same keys, dots and clock on both sides, only the nested values differ
       mapCause(f1, f2) == IF ty = "ormap" /\ co(f1).e = co(f2).e /\ co(f1).clock = co(f2).clock /\ co(f1).v # co(f2).v
                           THEN "ORMapValueDrop" ELSE ""
-  IN /\ Rep(va("ab") = va("ba"), e, "comm", mapCause("ab", "ba"))
+  IN /\ Rep(va("ab") = va("ba"), e, "comm", "")
      /\ Rep(va("ab_c") = va("a_bc"), e, "assoc", mapCause("ab_c", "a_bc"))
      /\ Rep(va("ab") # va("ba") \/ co("ab") = co("ba"), e, "comm-meta", "")
      /\ Rep(va("ab_c") # va("a_bc") \/ co("ab_c") = co("a_bc"), e, "assoc-meta", "")
      /\ Rep(co("aa") = co("a"), e, "idem", "")
-     /\ Rep(co("ab_a") = co("ab") /\ co("a_ab") = co("ab"), e, "absorb", mapCause("ab_a", "ab"))
+     /\ Rep(co("ab_a") = co("ab") /\ co("a_ab") = co("ab"), e, "absorb", "")
      /\ Rep(e.a2 = e.a /\ e.b2 = e.b /\ e.c2 = e.c, e, "inputs", "")
      /\ Rep(e.cl = e.a, e, "clone", "")
 
